@@ -33,7 +33,7 @@ var (
 		{Name: "Colon", Pattern: `:`},
 		{Name: "UnterminatedString", Pattern: `["']`},
 		{Name: "OtherPunct", Pattern: `[-[!@#$%^&*()+_={}\|:;"'<,>.?/]|]`},
-		{Name: "whitespace", Pattern: `[ \t]+`},
+		{Name: "whitespace", Pattern: `[ \t\r\n]+`},
 	})
 
 	TokenTypeString             = expressionLexer.Symbols()["String"]
